@@ -2,8 +2,8 @@
 (***************************************************************************)
 (* Trace validation for C14.  One TLC state per recorded case.  A case is  *)
 (* ALL observations of one artefact for one input:                         *)
-(*   [id, input, artefact, shape ("text" | "list"),                        *)
-(*    obs |-> << [proc, seed, rep, err, digest, items], ... >>]            *)
+(*   [id, input, artefact, shape ("text" | "list"), expect (= processes x  *)
+(*    repetitions), obs |-> << [proc, seed, rep, err, digest, items], .. >>]*)
 (* proc  = the interpreter process that made the observation (fresh        *)
 (*         /venv/bin/python with its own PYTHONHASHSEED),                  *)
 (* rep   = 1, 2: repeated call inside that process (fresh objects),        *)
@@ -59,6 +59,8 @@ Verdict(c) ==
   IF c.artefact \notin Artefacts THEN <<"fail", "KnownArtefact", "harness">>
   ELSE IF c.shape \notin {"text", "list"} THEN <<"fail", "KnownShape", "harness">>
   ELSE IF Len(c.obs) < 2 \/ Cardinality(Procs(c)) < 2 THEN <<"fail", "AtLeastTwoProcesses", "harness">>
+  \* every launched process must have observed this artefact the agreed number of times
+  ELSE IF Len(c.obs) # c.expect THEN <<"fail", "EveryProcessObserved", "missing">>
   ELSE IF ~SameWithinProcessObs(c.obs) THEN <<"fail", "SameWithinProcess", "repeat">>
   ELSE IF SameAcrossRunsObs(c.obs) THEN <<"ok">>
   ELSE IF ExplainedByAllDotBracketsHashOrder(c) THEN <<"deviation", "AllDotBracketsHashOrder", "order">>
